@@ -38,6 +38,17 @@ theorem ellipse_inside_polynomial (a b x y : Rat) (ha : 0 < a) (hb : 0 < b) :
     inside .ellipse a b x y ↔ b * b * (x * x) + a * a * (y * y) ≤ a * a * (b * b) :=
   ellipse_inside_poly a b x y ha hb
 
+/-- F is symmetric in both frame axes: the orientation of the abscissa / ordinate of the area frame (the code's
+    x-distance points south, the oracle's north) cannot change a decision -/
+theorem F_axis_symmetric (s : Shape) (a b x y : Rat) :
+    Fval s a b (-x) y = Fval s a b x y ∧ Fval s a b x (-y) = Fval s a b x y :=
+  ⟨Fval_neg_x s a b x y, Fval_neg_y s a b x y⟩
+
+/-- the circle is invariant under every rotation of the frame (any azimuth): `c = cos θ`, `s = sin θ` -/
+theorem circle_rotation_invariant (a b x y c s : Rat) (h : c * c + s * s = 1) :
+    Fval .circle a b (c * x + s * y) (-(s * x) + c * y) = Fval .circle a b x y :=
+  circle_rot a b x y c s h
+
 /-- the circle ignores `b` (the DEN service sends `b = 0`) and needs only `a > 0` -/
 theorem circle_only_needs_a (a b x y : Rat) (ha : 0 < a) :
     F .circle a b x y = .ok (Fval .circle a b x y) ∧ (0 ≤ Fval .circle a b x y ↔ x * x + y * y ≤ a * a) := by
